@@ -242,6 +242,48 @@ fn check_xlsx(c: &DamagedSheet, obs: &mut Obs) -> Verdict {
     Verdict::Pass
 }
 
+// ---------- sub "etrade": damaged confirmation texts through etrade-plan-pdf-tx-extract ----------
+#[derive(Clone, Debug)]
+pub struct DamagedTexts { pub files: Vec<(String, String)> }
+
+fn etrade_strategy(_t: Tier) -> BoxedStrategy<DamagedTexts> {
+    (super::c19::scenario_strategy(), proptest::collection::vec((any::<u16>(), any::<u16>(), 0u8..10), 0..6)).prop_map(|(sc, muts)| {
+        let mut files = sc.files.clone();
+        for (fi, pos, kind) in muts {
+            if files.is_empty() { break; }
+            let k = fi as usize % files.len();
+            let mut lines: Vec<String> = files[k].1.lines().map(|l| l.to_string()).collect();
+            if lines.is_empty() { continue; }
+            let li = pos as usize % lines.len();
+            match kind {
+                0 => { lines.remove(li); }
+                1 => { let l = lines[li].clone(); lines.insert(li, l); }
+                2 => { lines[li] = lines[li].chars().map(|c| if c.is_ascii_digit() { '9' } else { c }).collect(); }
+                3 => { lines[li] = lines[li].replace(|c: char| c.is_ascii_digit(), ""); }
+                4 => { lines.truncate(li); }
+                5 => { lines[li] = lines[li].replace('/', "/13/").replace('-', "-45-"); }
+                6 => { lines[li] = format!("{} 999999999999999999999999999999.99", lines[li]); }
+                7 => { lines[li] = lines[li].replace('$', ""); }
+                8 => { lines[li] = lines[li].replace("SELL", "SOLD SHORT").replace("Sold", "Bought"); }
+                _ => { files[k].1 = String::new(); continue; }
+            }
+            files[k].1 = lines.join("\n") + "\n";
+        }
+        DamagedTexts { files }
+    }).boxed()
+}
+
+fn check_etrade(c: &DamagedTexts, obs: &mut Obs) -> Verdict {
+    crate::observe::reset_globals(crate::observe::far_today());
+    let show = || c.files.iter().map(|(n, t)| format!("--- {n}\n{}", t.chars().take(1500).collect::<String>())).collect::<Vec<_>>().join("\n");
+    match super::c19::run_extract(&c.files, "d") {
+        Err(p) => return panic_verdict(&p, &show()),
+        Ok((false, _, err)) => { if err.trim().is_empty() { return Verdict::Fail(format!("etrade-plan-pdf-tx-extract failed without a message\n{}", show())); } if !(c.files.iter().any(|f| err.contains(&f.0)) || err.contains("Error")) { return Verdict::Fail(format!("error does not name a file: {err}")); } obs.nt("rejected-with-diagnostic"); }
+        Ok((true, out, _)) => { if !out.trim().is_empty() { obs.nt("extracted"); } }
+    }
+    Verdict::Pass
+}
+
 /// A sample through the real binary (argument layer, exit status, no 'panicked at').
 fn binary_sample(tier: Tier, seed: u64, idx: u64, of: u64, stats: &mut Stats) {
     use proptest::strategy::ValueTree;
@@ -291,6 +333,7 @@ pub fn def() -> PropDef {
     d.subs.push(Box::new(Sub::<LedgerCase> { name: "extreme", cases_quick: 6_000, cases_thorough: 300_000, strategy: Box::new(extreme_strategy), to_json: LedgerCase::to_json, from_json: LedgerCase::from_json, check: check_ledger }));
     d.subs.push(Box::new(Sub::<DamagedCase> { name: "damaged", cases_quick: 30_000, cases_thorough: 1_500_000, strategy: Box::new(damaged_strategy), to_json: DamagedCase::to_json, from_json: DamagedCase::from_json, check: check_damaged }));
     d.subs.push(Box::new(Sub::<DamagedSheet> { name: "xlsx", cases_quick: 12_000, cases_thorough: 500_000, strategy: Box::new(xlsx_strategy), to_json: |c| { let mut j = c.export.to_json(); j["edits"] = JsonValue::Array(c.edits.iter().map(|(r, col, v)| json::object! { row: *r, col: col.as_str(), value: v.as_str() }).collect()); j }, from_json: |v| Some(DamagedSheet { export: super::c18::Export::from_json(v)?, edits: v["edits"].members().filter_map(|e| Some((e["row"].as_usize()?, e["col"].as_str()?.to_string(), e["value"].as_str()?.to_string()))).collect() }), check: check_xlsx }));
+    d.subs.push(Box::new(Sub::<DamagedTexts> { name: "etrade", cases_quick: 4_000, cases_thorough: 200_000, strategy: Box::new(etrade_strategy), to_json: |c| json::object! { files: crate::gen::files_json(&c.files) }, from_json: |v| Some(DamagedTexts { files: crate::gen::files_from_json(&v["files"])? }), check: check_etrade }));
     d.extra = Some(binary_sample);
     d
 }
